@@ -288,3 +288,17 @@ def pinned_consts():
     except OSError:
         pass
     return out
+
+
+def py_reported_state(d):
+    """what the document REPORTS about the channel, as far as the property talks about it: disabled, or (1.0) the
+    state word, or (2.0) the wireserver / imds modes (case-insensitive; anything but enforce / audit is disabled)"""
+    if py_disabled(d):
+        return "disabled"
+    if d["version"] == "2.0":
+        def w(ep):
+            it = (d.get("rules") or {}).get(ep)
+            m = it["mode"].lower() if it else "disabled"
+            return m if m in ("enforce", "audit") else "disabled"
+        return ("2.0", w("wireserver"), w("imds"))
+    return d["state"].lower()
